@@ -31,6 +31,8 @@ macro_rules! with_world {
             "stream" => $body::<worlds::stream::StreamWorld>($($args),*),
             "verifier" => $body::<worlds::verifier::VerifierWorld>($($args),*),
             "rng" => $body::<worlds::rngw::RngWorld>($($args),*),
+            #[cfg(feature = "nightly")]
+            "mem" => $body::<worlds::mem::MemWorld>($($args),*),
             other => {
                 eprintln!("unknown world {} in this build ({})", other, plan::build_name());
                 2
